@@ -330,6 +330,14 @@ def entry_points():
             "[general]\nfamily = Foo\nversion = 21_%s\narch = x86_64\ntimestamp = 1\nvariant = Foo\n" % s))),
         ("TreeInfo.loads(checksum value)", one_line(lambda s: ti.TreeInfo().loads((TI_HEAD % "1") + "\n[checksums]\na = %s\n" % s))),
         ("DiscInfo.loads(timestamp line)", one_line(lambda s: di.DiscInfo().loads("%s\nFedora\nx86_64\nALL" % s))),
+        # the same documents handed over as byte streams (a file opened "rb", a network response): reading is part of parsing
+        ("ComposeInfo.load(byte stream, compose.label)", lambda s: ci.ComposeInfo().load(io.BytesIO(ci_doc(payload__compose__label=s).encode("utf-8")))),
+        ("ComposeInfo.load(byte stream, variant id)", lambda s: ci.ComposeInfo().load(io.BytesIO(ci_doc(payload__variants__Server__id=s).encode("utf-8")))),
+        ("Rpms.load(byte stream, 0.3 key)", lambda s: rp.Rpms().load(io.BytesIO(json.dumps(
+            {"header": {"version": "0.3"}, "payload": {"compose": {"id": "F-22-20160622.n.3", "type": "nightly", "date": "20160622", "respin": 3},
+                                                       "manifest": {"Server": {"x86_64": {s: {s: {"path": "p", "sigkey": None, "type": "package"}}}}}}}).encode("utf-8")))),
+        ("TreeInfo.load(byte stream, release.version)", one_line(lambda s: ti.TreeInfo().load(io.BytesIO((TI_HEAD % s).encode("utf-8"))))),
+        ("DiscInfo.load(byte stream, timestamp line)", one_line(lambda s: di.DiscInfo().load(io.BytesIO(("%s\nFedora\nx86_64\nALL" % s).encode("utf-8"))))),
     ]
 
 
